@@ -333,8 +333,8 @@ class Gen:
         looks at an integer's representation (index, repetition, shift count, range, hash / dict key, conversions)"""
         ctx = "[X, X + 0, X * 1, -X, X // 1, X % 1000003, X & -1, X | 0, X ^ 0, ~X, X << 1, X >> 1, abs(X), str(X), repr(X), \"%d|%x\" % (X, X), " \
               "float(X), int(float(X)) if -(1 << 53) < X and X < (1 << 53) else 0, X == X + 0, X < X + 1, {X: 1}.get(X + 0), {X + 0: 1}.get(X), X in {X + 0: 1}, len(set([X, X + 0])), " \
-              "(X,) == (X + 0,), [10, 20, 30, 40, 50, 60, 70, 80][X] if -8 <= X and X < 8 else 0, \"ab\" * X if X < 6 else 0, [1] * X if X < 6 else 0, " \
-              "(1 << X) if 0 <= X and X < 80 else 0, (1 << 90) >> X if 0 <= X and X < 80 else 0, list(range(X)) if X < 9 else len(range(X)), " \
+              "(X,) == (X + 0,), [10, 20, 30, 40, 50, 60, 70, 80][X] if -8 <= X and X < 8 else 0, \"ab\" * X if -6 < X and X < 6 else 0, [1] * X if -6 < X and X < 6 else 0, " \
+              "(1 << X) if 0 <= X and X < 80 else 0, (1 << 90) >> X if 0 <= X and X < 80 else 0, list(range(X)) if -9 < X and X < 9 else len(range(X)), " \
               "list(range(0, 20, X)) if X > 0 and X < 30 else 0, range(100)[X] if -100 <= X and X < 100 else 0, \"abcdefgh\"[X:] if True else 0, bool(X), max(X, 0), sorted([X, 0, X + 0])]"
         for n, rt in self.ROUTES:
             src = "(lambda X: %s)(%s), (lambda X: %s)(%s)" % (ctx, rt, ctx, isrc(n))
